@@ -73,6 +73,7 @@ harness2!(cl_clone__s8_8g4, cl_clone, S8_8G4, U0);
 harness2!(cl_clone__u8_3t, cl_clone, U8_3T, U0);
 harness2!(cl_clone__s8_e, cl_clone, S8_E, U0);
 harness2!(cl_clone__u0, cl_clone, U0, U0);
+harness2!(cl_clone__s8m0_4a, cl_clone, S8M0_4A, U0);
 
 fn cl_clone_from(ssh: Shape, dsh: Shape) {
     let src = build_kv(ssh, 1);
@@ -115,4 +116,7 @@ harness2!(cl_clone_from__s8_e__s8_e, cl_clone_from, S8_E, S8_E);
 // destination allocation reused (different bucket count, capacity >= source main len) while the
 // leftovers of the source do not fit without growing
 harness2!(cl_clone_from__s8_4a__u4f, cl_clone_from, S8_4A, U4F);
+// source whose main table is empty while leftovers remain (just reserved, or main emptied by removals)
+harness2!(cl_clone_from__s8m0_4a__s8_4a, cl_clone_from, S8M0_4A, S8_4A);
+harness2!(cl_clone_from__s8m0_4a__u0, cl_clone_from, S8M0_4A, U0);
 harness2!(cl_clone_from__s8t_4a__u16_2, cl_clone_from, S8T_4A, U16_2);
